@@ -32,10 +32,17 @@ def classify_methods(F):
 
 def run(ctx):
     R = Report("C10", ctx.tier, "proof", "may-write effect inference over MIR + call graph; parametricity of EVM entry points")
-    F = ctx.facts()
-    CG = ctx.cg()
+    return rules(R, ctx.facts(), ctx.cg(), own=True)
+
+
+def rules(R, F, CG, own=False, only=None):
+    """the effect obligations, recorded into R: C10's own report, or another property's for the methods in `only`"""
     LM = LockModel(F, CG)
     E = Effects(F, CG, LM)
+    if not own:
+        _say = R.say
+        R.say = lambda s_: None
+        _expl, _tr, _as = R.explanation, R.trusted, R.assumptions
     R.explanation = (
         "EFFECT rule: primitive write effects (stores through &mut into shared-state containers, mem::take/swap "
         "slots, RocksDB/fs write APIs, EVM commit capability, write-lock acquisitions, interior mutability) are read "
@@ -46,9 +53,11 @@ def run(ctx):
                  "RocksDB API read/write classification table (effects.py)"]
     R.assumptions = ["dependencies do not downcast through Any or use specialisation to reach DatabaseCommit"]
     methods, deny, read, write = classify_methods(F)
+    if only is not None:
+        read = [x for x in read if x[0] in only]
     R.say("C10: %d registered methods, %d on the deny list, %d read handlers analysed" % (len(methods), len(deny), len(read)))
     R.floor("registered_methods", len(methods), 55)
-    R.floor("read_methods", len(read), 44)
+    R.floor("read_methods" if only is None else "simulation_methods", len(read), 44 if only is None else len(only))
     containers, payloads = roles.state_containers(F)
     R.say("C10: shared-state containers: %s" % ", ".join(sorted(x.split("::")[-1] for x in containers)))
     R.floor("state_containers", len(containers), 8)
@@ -143,4 +152,7 @@ def run(ctx):
                  "revm::Database callback %s has write effects %s" % (f.name, bad),
                  sample={"rule": "EFFECT-DBREAD", "fn": f.name})
     R.floor("database_trait_methods", n_cb, 4)
+    if not own:
+        R.say = _say
+        R.explanation, R.trusted, R.assumptions = _expl, _tr, _as
     return R
